@@ -257,7 +257,11 @@ def acceptance(ctx, mode, cases):
         rec = {"kind": kind, "mutation": mop, "mode": mode, "rng": case["rng"]}
         if js != pd:
             key = None
-            if strict and mop in ("unknown-key", "unknown-key-nested", "unknown-key-testing") and not js and pd:
+            # the open finding is about validators of NESTED models surviving a strict rebuild: an unknown key inside a
+            # node, or inside a module of a package; an unknown key at the top level of the rebuilt model itself
+            # (SerialHugr, TestingHugr) IS rejected on the unchanged tree and stays a violation if it is not
+            nested = mop == "unknown-key-nested" or (kind == "package" and mop == "unknown-key")
+            if strict and nested and not js and pd:
                 key = "strict-rebuild-leaves-stale-nested-validators"
             ctx.disc(key, f"acceptance-disagreement[{mode}.{mop}]", rec, {"published-schema": js},
                      {"pydantic": pd}, stratum="acceptance", case=rec)
